@@ -10,7 +10,7 @@ STATEMENT = ("dt_bump(t, 'nb') from a weekday is the n-th weekday after/before t
              "weekday, monotone in t, same-sign bumps compose; d/w/h/n/s/int/timedelta add exactly; m/q/y at midnight keep the day of month or "
              "roll the excess into the following month; compound tenors apply left to right; +x then -x returns to t (fixed units, b from a "
              "weekday, m/q/y when day <= 28)")
-LEAN_FILES = ['Basic', 'Greg', 'GenTypes', 'Bump', 'BumpDriver', 'PygGen', 'GregLemmas', 'BumpLemmas', 'C09']
+LEAN_FILES = ['Basic', 'Greg', 'GenTypes', 'Bump', 'BumpDriver', 'PygGen', 'Sweep', 'GregLemmas', 'GregPeriod', 'BumpLemmas', 'MonthLemmas', 'TokenLemmas', 'C09']
 GENERATED = ['PygGen.Ym', 'PygGen.BDay', 'PygGen.Tables']
 RULE = ('distinct protocol lines (start instant, bump arguments) on which dt_bump returned a datetime different from the start instant, '
         'or a translator-grid line on which the python kernel returned a value')
